@@ -18,7 +18,7 @@ mod verif_kani {
     use crate::verif_spec::{any_str_in, ascii, count_nl, fuses, must_escape_in_quotes, not_raw_in_long_bracket};
 
     //@harness props=C02,C12 kind=proof fns=should_break_with_space
-    //@ desc="for ALL pairs of chars (a, b): O-lex fuses(a, b) ==> should_break_with_space(a, b); fuses = word.word | digit.'.' | '.'.'.' | '.'.digit | '-'.'-' | '['.'[' | '>'.'='"
+    //@ desc="for ALL pairs of chars (a, b): O-lex fuses(a, b) ==> should_break_with_space(a, b); fuses = word.word | digit.'.' | '.'.'.' | '-'.'-' | '['.'[' | '>'.'='"
     #[kani::proof_for_contract(should_break_with_space)]
     fn vk_utils_should_break_with_space_contract() {
         let a: char = kani::any();
